@@ -238,7 +238,7 @@ class CounterToken(Token, FileSystemEventHandler):
             self.timestamp = os.path.getmtime(self.path)
             self._update()
             if _verif.ACTIVE:
-                _verif.emit("tok.init", available=self.available)
+                _verif.emit("tok.init", available=self.available, total=self.total)
 
         # Watched path
         self.watchedpath = str(path.absolute())
@@ -367,6 +367,13 @@ class CounterToken(Token, FileSystemEventHandler):
                 delta = total - self.total
                 self.total = total
                 self.available += delta
+                if _verif.ACTIVE:
+                    _verif.emit(
+                        "tok.evt.info",
+                        total=self.total,
+                        delta=delta,
+                        available=self.available,
+                    )
                 logger.debug(
                     "Token information modified: available %d, total %d",
                     self.available,
